@@ -31,11 +31,15 @@
    the compared domain ("behind-refused-injection": no fill-time assignment can be right). *)
 EXTENDS Integers, Sequences, FiniteSets, TLC
 CONSTANTS MaxGroups,    \* bound on client-side group objects (built + filled)
-          MaxBatch,     \* contents per group
-          MaxCalls,     \* history length
+          Batches,      \* set of group sizes (contents per group)
+          Acts,         \* enabled calls, a subset of {"fill", "autofill", "autofail", "send", "inject", "bake"} (families share this module)
+          MaxBuilt,     \* bound on built (unfilled) groups
+          MaxCalls,     \* history length, builds not counted
           MaxCtx,       \* number of ExecutionContexts (client.operation() calls / roots)
           Chain0,       \* initial account counter
-          MempoolKey    \* "applied": legacy node; "validated": current Octez (>= v19) mempool RPC
+          MempoolKey,   \* "applied": legacy node; "validated": current Octez (>= v19) mempool RPC
+          Repaired      \* deviations of the as-coded machine that have been repaired in the code under test:
+                        \* a subset of {"validated-mempool", "failed-simulation"} ({} = the tree as found)
 None == -1
 
 VARIABLES chainCtr,    \* account counter on the node (head context)
@@ -54,7 +58,8 @@ RECURSIVE SumLen(_)
 SumLen(s) == IF s = <<>> THEN 0 ELSE LET r == SumLen(Tail(s)) IN Len(Head(s)) + r
 Pending == SumLen(mempool)
 \* what ExecutionContext.get_counter_offset() counts: only the lists "applied" and "unprocessed"
-Visible == IF MempoolKey = "applied" THEN Pending ELSE 0
+SeesMempool == MempoolKey = "applied" \/ "validated-mempool" \in Repaired
+Visible == IF SeesMempool THEN Pending ELSE 0
 Seq1(base, k) == [j \in 1..k |-> base + j]
 EmptyEp == [burnt |-> 0, fills |-> {}, chain0 |-> None]
 
@@ -98,9 +103,10 @@ FillCore(g, plain) ==
   /\ ep' = [ep EXCEPT ![c] = EpAfter(c, groups[g].n, Len(groups) + 1, FALSE)]
 FailCore(g) ==       \* fill() consumed the counters, then run_operation was not "applied": autofill raises
   LET c == groups[g].cx IN
-  /\ cache' = [cache EXCEPT ![c] = Base(c) + groups[g].n]
-  /\ ep' = [ep EXCEPT ![c] = EpAfter(c, groups[g].n, 0, TRUE)]
-  /\ UNCHANGED groups
+  IF "failed-simulation" \in Repaired THEN UNCHANGED <<cache, ep, groups>>
+  ELSE /\ cache' = [cache EXCEPT ![c] = Base(c) + groups[g].n]
+       /\ ep' = [ep EXCEPT ![c] = EpAfter(c, groups[g].n, 0, TRUE)]
+       /\ UNCHANGED groups
 
 Fill(g) == /\ Len(groups) < MaxGroups /\ groups[g].ctrs = <<>>
            /\ FillCore(g, TRUE)
@@ -119,7 +125,7 @@ Cause(r, want) ==
   ELSE IF r.burnt > 0 THEN "stale-cache-after-failed-simulation"
   ELSE IF \E h \in r.prior : h \notin (accSet \cup refSet) THEN "stale-cache-after-abandoned-fill"
   ELSE IF r.plain /\ r.pend > 0 THEN "plain-fill-with-nonempty-mempool"
-  ELSE IF ~r.plain /\ r.pend > 0 /\ MempoolKey # "applied" THEN "autofill-ignores-validated-mempool"
+  ELSE IF ~r.plain /\ r.pend > 0 /\ ~SeesMempool THEN "autofill-ignores-validated-mempool"
   ELSE IF r.moved THEN "stale-cache-after-block"
   ELSE IF \E h \in r.unacc : h \in accSet /\ groups[h].cx = r.cx THEN "inject-between-pipelined-fills"
   ELSE IF \E h \in r.unacc : h \in accSet THEN "pipelined-fills-in-separate-contexts"
@@ -127,7 +133,7 @@ Cause(r, want) ==
   ELSE "unexplained"
 Flagged(r) == \/ r.burnt > 0
               \/ \E h \in r.prior : h \notin (accSet \cup refSet)
-              \/ r.pend > 0 /\ (r.plain \/ MempoolKey # "applied")
+              \/ r.pend > 0 /\ (r.plain \/ ~SeesMempool)
               \/ r.moved
               \/ \E h \in r.unacc : h \in accSet
               \/ BehindRefused(r)
@@ -150,25 +156,30 @@ DoInject(r, id) ==
 InjectCore(g) == groups[g].ctrs # <<>> /\ DoInject(groups[g], g) /\ UNCHANGED groups
 Inject(g) == g > lastInj /\ InjectCore(g)          \* domain: injection follows fill order, once
 
-\* send(): autofill, sign, inject in one call
-Send(g, simOK) ==
+\* send(): autofill, sign, inject in one call (a failing simulation inside send() is Autofill(g, FALSE))
+Send(g) ==
   /\ Len(groups) < MaxGroups /\ groups[g].ctrs = <<>>
-  /\ IF simOK
-     THEN /\ groups' = Append(groups, NewRec(g, FALSE))
-          /\ DoInject(NewRec(g, FALSE), Len(groups) + 1)
-     ELSE /\ FailCore(g) /\ UNCHANGED <<chainCtr, mempool, nctx, accSet, refSet, log, lastInj>>
+  /\ groups' = Append(groups, NewRec(g, FALSE))
+  /\ DoInject(NewRec(g, FALSE), Len(groups) + 1)
 
 Bake == /\ mempool # <<>> /\ chainCtr' = chainCtr + Pending /\ mempool' = <<>>
         /\ UNCHANGED <<nctx, cache, ep, groups, accSet, refSet, log, lastInj>>
 
-Next == /\ calls < MaxCalls /\ calls' = calls + 1
-        /\ \/ \E k \in 1..MaxBatch, c \in 1..MaxCtx : Build(k, c) /\ hist' = Append(hist, <<"build", k, c>>)
-           \/ \E g \in DOMAIN groups :
-                \/ Fill(g) /\ hist' = Append(hist, <<"fill", g>>)
-                \/ \E ok \in BOOLEAN : Autofill(g, ok) /\ hist' = Append(hist, <<"autofill", g, ok>>)
-                \/ \E ok \in BOOLEAN : Send(g, ok) /\ hist' = Append(hist, <<"send", g, ok>>)
-                \/ Inject(g) /\ hist' = Append(hist, <<"inject", g>>)
-           \/ Bake /\ hist' = Append(hist, <<"bake">>)
+\* One step of a history.  Building a group touches nothing but the new object (and possibly a new
+\* context), so it commutes with every other call: histories are enumerated with all builds first and in
+\* canonical order (by context, then size) - a sound reduction, not a restriction.  `calls` counts the other calls.
+Step(e) == calls < MaxCalls /\ calls' = calls + 1 /\ hist' = Append(hist, e)
+BuildOrder(k, c) == IF groups = <<>> THEN TRUE ELSE LET l == groups[Len(groups)] IN l.cx < c \/ (l.cx = c /\ l.n <= k)
+ABuild == \E k \in Batches, c \in 1..MaxCtx :
+            /\ calls = 0 /\ Len(groups) < MaxBuilt /\ BuildOrder(k, c) /\ Build(k, c)
+            /\ hist' = Append(hist, <<"build", k, c>>) /\ UNCHANGED calls
+AFill == "fill" \in Acts /\ \E g \in DOMAIN groups : Fill(g) /\ Step(<<"fill", g>>)
+AAutofill == "autofill" \in Acts /\ \E g \in DOMAIN groups : Autofill(g, TRUE) /\ Step(<<"autofill", g, TRUE>>)
+AAutofillFail == "autofail" \in Acts /\ \E g \in DOMAIN groups : Autofill(g, FALSE) /\ Step(<<"autofill", g, FALSE>>)
+ASend == "send" \in Acts /\ \E g \in DOMAIN groups : Send(g) /\ Step(<<"send", g>>)
+AInject == "inject" \in Acts /\ \E g \in DOMAIN groups : Inject(g) /\ Step(<<"inject", g>>)
+ABake == "bake" \in Acts /\ Bake /\ Step(<<"bake">>)
+Next == ABuild \/ AFill \/ AAutofill \/ AAutofillFail \/ ASend \/ AInject \/ ABake
 Spec == Init /\ [][Next]_vars
 
 ----------------------------------------------------------------------------
